@@ -31,6 +31,79 @@ package gateway
 //@   property C11
 //@   ensures[window_is_half_open] r <==> (ts >= fromNano && ts < toNano)
 
+// Selection predicates of the claiming RPCs (property C11: claims hand out MATCHING records).
+// The planner may replace the request's filter by a residual filter (the filter minus one indexed
+// leg) plus the set of candidate keys of that leg. The predicates handed to the engine must then
+//   - reject every record that is not a candidate (also when there is NO candidate at all: an empty or
+//     nil candidate set means "nothing can match", never "no fast-reject"),
+//   - accept only records for which the evaluated filter holds,
+//   - accept only records inside the requested time window when the request has time bounds and the
+//     index is time based.
+// Assumed (bodies not verified): the planner, the bucket lookup and the filter evaluator.
+//@ func PlanFilter(group) (plan)
+//@   opaque
+//@ func collectBucketCandidates(sw, hints) (out)
+//@   opaque
+//@ func candidateKeySet(candidates) (out)
+//@   opaque
+//@ func evaluateNativeFilterGroup(t, group) (r)
+//@   opaque
+//@ func timestampExtractorFor(b) (f)
+//@   opaque
+//@   ensures (b == swamp.BeaconTypeCreationTime || b == swamp.BeaconTypeUpdateTime || b == swamp.BeaconTypeExpirationTime) <==> f != nil
+//@ func timeBoundsNanos(from, to) (fromNano, toNano)
+//@   opaque
+
+// no filter, time window only
+//@ func buildShiftMatchingPredicate$2(t) (r)
+//@   property C11
+//@   modifies *
+//@   ensures[only_inside_the_window] r ==> fni(getTs, t) >= fromNano && fni(getTs, t) < toNano
+// filter, no time window
+//@ func buildShiftMatchingPredicate$3(t) (r)
+//@   property C11
+//@   modifies *
+//@   ensures[non_candidates_rejected] useKeySet && !has(keySet, icall("GetKey", t)) ==> !r
+//@   ensures[filter_decides] r ==> calls("evaluateNativeFilterGroup") == old(calls("evaluateNativeFilterGroup")) + 1 && lastretb("evaluateNativeFilterGroup") && calledwith("evaluateNativeFilterGroup", 0, t) && calledwith("evaluateNativeFilterGroup", 1, filterEval)
+// filter and time window
+//@ func buildShiftMatchingPredicate$4(t) (r)
+//@   property C11
+//@   modifies *
+//@   ensures[only_inside_the_window] r ==> fni(getTs, t) >= fromNano && fni(getTs, t) < toNano
+//@   ensures[non_candidates_rejected] useKeySet && !has(keySet, icall("GetKey", t)) ==> !r
+//@   ensures[filter_decides] r ==> calls("evaluateNativeFilterGroup") == old(calls("evaluateNativeFilterGroup")) + 1 && lastretb("evaluateNativeFilterGroup") && calledwith("evaluateNativeFilterGroup", 0, t) && calledwith("evaluateNativeFilterGroup", 1, filterEval)
+
+// Which predicate is built: with time bounds on a time-based index it is one of the two window-checking
+// literals, capturing the bounds computed from the request; with a filter it is one of the two
+// filter-evaluating literals; and whenever the evaluated filter is not the request's own filter (the
+// planner dropped the indexed leg) the candidate set is enforced.
+//@ func buildShiftMatchingPredicate(sw, beaconType, filters, fromTime, toTime) (pred, err)
+//@   property C11
+//@   modifies *
+//@   ensures[always_a_predicate] err == nil ==> pred != nil
+//@   ensures[time_window_honoured] err == nil && (fromTime != nil || toTime != nil) && (beaconType == swamp.BeaconTypeCreationTime || beaconType == swamp.BeaconTypeUpdateTime || beaconType == swamp.BeaconTypeExpirationTime) ==> (litof(pred) == 2 || litof(pred) == 4)
+//@   ensures[window_is_the_requested_one] err == nil && (litof(pred) == 2 || litof(pred) == 4) ==> calledwith("timeBoundsNanos", 0, fromTime) && calledwith("timeBoundsNanos", 1, toTime) && capt(pred, "fromNano") == lastret("timeBoundsNanos", 0) && capt(pred, "toNano") == lastret("timeBoundsNanos", 1) && capt(pred, "getTs") == lastret("timestampExtractorFor") && calledwith("timestampExtractorFor", 0, beaconType)
+//@   ensures[filter_honoured] err == nil && filters != nil ==> (litof(pred) == 3 || litof(pred) == 4)
+//@   ensures[dropped_leg_is_enforced_by_candidates] err == nil && (litof(pred) == 3 || litof(pred) == 4) ==> (capt(pred, "filterEval") == filters || (capt(pred, "useKeySet") && capt(pred, "keySet") == lastret("candidateKeySet") && calls("candidateKeySet") == old(calls("candidateKeySet")) + 1))
+
+// PatchExpired selection: no filter = no predicate (all expired records); a planned filter = the
+// candidate set AND the residual; otherwise the full filter.
+//@ func buildPatchExpiredSelectionPredicate$1(t) (r)
+//@   property C11
+//@   modifies *
+//@   ensures[filter_decides] r ==> lastretb("evaluateNativeFilterGroup") && calledwith("evaluateNativeFilterGroup", 0, t) && calledwith("evaluateNativeFilterGroup", 1, filters)
+//@ func buildPatchExpiredSelectionPredicate$2(t) (r)
+//@   property C11
+//@   modifies *
+//@   ensures[non_candidates_rejected] !has(set, icall("GetKey", t)) ==> !r
+//@   ensures[filter_decides] r ==> lastretb("evaluateNativeFilterGroup") && calledwith("evaluateNativeFilterGroup", 0, t) && calledwith("evaluateNativeFilterGroup", 1, residual)
+//@ func buildPatchExpiredSelectionPredicate(sw, filters) (pred, err)
+//@   property C11
+//@   modifies *
+//@   ensures[no_filter_no_predicate] filters == nil ==> pred == nil && err == nil
+//@   ensures[filter_honoured] filters != nil && err == nil ==> (litof(pred) == 1 || litof(pred) == 2)
+//@   ensures[dropped_leg_is_enforced_by_candidates] litof(pred) == 2 ==> capt(pred, "set") == lastret("candidateKeySet") && calls("candidateKeySet") == old(calls("candidateKeySet")) + 1
+
 // Wire conversion (property C30): the response reports an expiry exactly when the record has
 // one (ExpirationTime != 0, the engine-wide meaning of "has an expiry").
 //@ func treasureToKeyValuePair(treasureInterface, t)
